@@ -101,6 +101,152 @@ PATH_PARTS = ["x", "sub dir", "ünï", "a.b", "rec-01", "2024", "日本"]
 STATES = ["assigned", "completed", "verified", "rejected"]
 
 
+# ------------------------------------------------- declared-field coverage
+
+# fields the hand-written builders below know about, per data class
+KNOWN_FIELDS = {
+    "User": {"uuid", "username", "email", "name", "institution"},
+    "Note": {"uuid", "message", "created_by", "is_issue", "created_on"},
+    "Recording": {
+        "uuid", "path", "duration", "channels", "samplerate",
+        "time_expansion", "hash", "date", "time", "latitude", "longitude",
+        "license", "owners", "rights", "tags", "features", "notes",
+    },
+    "Clip": {"uuid", "recording", "start_time", "end_time", "features"},
+    "SoundEvent": {"uuid", "geometry", "recording", "features"},
+    "Sequence": {"uuid", "sound_events", "features", "parent"},
+    "SoundEventAnnotation": {
+        "uuid", "sound_event", "notes", "tags", "created_by", "created_on",
+    },
+    "SequenceAnnotation": {
+        "uuid", "sequence", "notes", "tags", "created_by", "created_on",
+    },
+    "ClipAnnotation": {
+        "uuid", "clip", "sound_events", "sequences", "tags", "notes",
+        "created_on",
+    },
+    "SoundEventPrediction": {"uuid", "sound_event", "score", "tags"},
+    "SequencePrediction": {"uuid", "sequence", "score", "tags"},
+    "ClipPrediction": {
+        "uuid", "clip", "sound_events", "sequences", "tags", "features",
+    },
+    "Match": {"uuid", "source", "target", "affinity", "score", "metrics"},
+    "ClipEvaluation": {
+        "uuid", "annotations", "predictions", "matches", "metrics", "score",
+    },
+    "AnnotationTask": {"uuid", "clip", "status_badges", "created_on"},
+    "RecordingSet": {"uuid", "recordings", "created_on"},
+    "Dataset": {"uuid", "recordings", "created_on", "name", "description"},
+    "AnnotationSet": {"uuid", "clip_annotations", "created_on"},
+    "AnnotationProject": {
+        "uuid", "clip_annotations", "created_on", "name", "description",
+        "instructions", "annotation_tags", "tasks",
+    },
+    "EvaluationSet": {
+        "uuid", "clip_annotations", "created_on", "name", "description",
+        "evaluation_tags",
+    },
+    "PredictionSet": {"uuid", "clip_predictions", "created_on"},
+    "ModelRun": {
+        "uuid", "clip_predictions", "created_on", "name", "version",
+        "description",
+    },
+    "Evaluation": {
+        "uuid", "created_on", "evaluation_task", "clip_evaluations",
+        "metrics", "score",
+    },
+    "PredictedTag": {"tag", "score"},
+    "StatusBadge": {"state", "owner", "created_on"},
+    "Tag": {"term", "value"},
+    "Feature": {"term", "value"},
+}
+
+POOL_CLASS = {
+    "users": "User",
+    "recordings": "Recording",
+    "clips": "Clip",
+    "sound_events": "SoundEvent",
+    "sequences": "Sequence",
+    "se_annotations": "SoundEventAnnotation",
+    "seq_annotations": "SequenceAnnotation",
+    "clip_annotations": "ClipAnnotation",
+    "se_predictions": "SoundEventPrediction",
+    "seq_predictions": "SequencePrediction",
+    "clip_predictions": "ClipPrediction",
+    "matches": "Match",
+    "clip_evaluations": "ClipEvaluation",
+    "tasks": "AnnotationTask",
+}
+ROOT_CLASS = {
+    "recording_set": "RecordingSet",
+    "dataset": "Dataset",
+    "annotation_set": "AnnotationSet",
+    "annotation_project": "AnnotationProject",
+    "evaluation_set": "EvaluationSet",
+    "prediction_set": "PredictionSet",
+    "model_run": "ModelRun",
+    "evaluation": "Evaluation",
+}
+
+# filled by the worker from the template's report of model_fields:
+# class -> {field: annotation string}; fields that the builders do not know
+# are filled generically when their type is simple ("every declared field"
+# must survive a field being added to a data class)
+EXTRA_FIELDS: dict = {}
+UNEXERCISED_FIELDS: list = []
+
+_SIMPLE = {
+    "<class 'str'>": "str",
+    "typing.Optional[str]": "str",
+    "<class 'float'>": "float",
+    "typing.Optional[float]": "float",
+    "<class 'int'>": "int",
+    "typing.Optional[int]": "int",
+    "<class 'bool'>": "bool",
+    "typing.Optional[bool]": "bool",
+    "typing.List[str]": "liststr",
+    "typing.Optional[typing.List[str]]": "liststr",
+    "list[str]": "liststr",
+    "<class 'datetime.datetime'>": "datetime",
+    "typing.Optional[datetime.datetime]": "datetime",
+}
+
+
+def set_declared_fields(fields: dict) -> None:
+    """Called once per worker with nodeside.h_info()['fields']."""
+    EXTRA_FIELDS.clear()
+    del UNEXERCISED_FIELDS[:]
+    for cls, known in KNOWN_FIELDS.items():
+        for name, info in sorted((fields.get(cls) or {}).items()):
+            if name in known:
+                continue
+            kind = _SIMPLE.get(info["annotation"])
+            if kind is None:
+                UNEXERCISED_FIELDS.append(f"{cls}.{name}: {info['annotation']}")
+            else:
+                EXTRA_FIELDS.setdefault(cls, {})[name] = kind
+
+
+def fill_extra(entity: dict, cls: str, rv, cfg) -> dict:
+    extra = {}
+    for name, kind in EXTRA_FIELDS.get(cls, {}).items():
+        if kind == "str":
+            extra[name] = gen_str(rv, cfg) or "x"
+        elif kind == "float":
+            extra[name] = gen_float(rv, cfg)
+        elif kind == "int":
+            extra[name] = rv.randint(-1000, 1000)
+        elif kind == "bool":
+            extra[name] = rv.random() < 0.5
+        elif kind == "liststr":
+            extra[name] = [gen_str(rv, cfg) for _ in range(rv.randint(1, 2))]
+        elif kind == "datetime":
+            extra[name] = {"__datetime": gen_datetime(rv, cfg)}
+    if extra:
+        entity["extra"] = extra
+    return entity
+
+
 # ------------------------------------------------------------------ config
 
 
@@ -740,6 +886,26 @@ def gen_world(struct_seed, value_seed, cfg) -> dict:
     if _maybe(rv, cfg):
         ev["score"] = gen_float(rv, cfg, 0.0, 1.0)
     roots["evaluation"] = ev
+
+    if EXTRA_FIELDS:
+        pools = {
+            "users": users, "recordings": recordings, "clips": clips,
+            "sound_events": sound_events, "sequences": sequences,
+            "se_annotations": se_annotations,
+            "seq_annotations": seq_annotations,
+            "clip_annotations": clip_annotations,
+            "se_predictions": se_predictions,
+            "seq_predictions": seq_predictions,
+            "clip_predictions": clip_predictions, "matches": matches,
+            "clip_evaluations": clip_evaluations, "tasks": tasks,
+        }
+        for pool, entities in pools.items():
+            for entity in entities:
+                fill_extra(entity, POOL_CLASS[pool], rv, cfg)
+                for note in entity.get("notes", []):
+                    fill_extra(note, "Note", rv, cfg)
+        for kind, root in roots.items():
+            fill_extra(root, ROOT_CLASS[kind], rv, cfg)
 
     return {
         "audio_root": root_dir,
